@@ -14,7 +14,8 @@ from harness.props import c07, c15
 RULE = (
     "seeded include graphs over <= 8 files in <= 4 directories (trees, diamonds / shared nodes, 2- and 3-cycles, dangling "
     "edges, equally named files in different directories, the root re-included), overlapping nested content tagged by file, "
-    "native and JSON syntax mixed, self-referring placeholder entries; DictReader.read(root) and read(root, includes=False) "
+    "native and JSON syntax mixed, self-referring placeholder entries; histories of reads / SDict.load / counter resets in one "
+    "process over files with references and expressions; DictReader.read(root) and read(root, includes=False) "
     "compared with an independent first-wins closure fold and with the Coq model; thorough adds every graph on <= 4 nodes "
     "with out-degree <= 2; non-trivial = graph has a shared node, a cycle, a dangling edge or equal names; distinct = "
     "distinct (graph, content, syntax assignment)"
@@ -134,7 +135,62 @@ def materialise(case, tmp: Path):
     return tmp / case["files"][0]["rel"]
 
 
+def eval_refs(t, top):
+    """history cases carry entries  ref<i> $only<i>  and  expr<i> "$only<i> + 1"  (only<i> is declared once, in file i)"""
+    import re
+
+    if isinstance(t, dict):
+        return {k: eval_refs(v, top) for k, v in t.items()}
+    if isinstance(t, list):
+        return [eval_refs(v, top) for v in t]
+    if isinstance(t, str):
+        m = re.fullmatch(r"\$(only\d+)( \+ 1)?", t)
+        if m and m.group(1) in top:
+            return top[m.group(1)] + (1 if m.group(2) else 0)
+    return t
+
+
+def history_oracle(case: dict):
+    """one process, one directory of files, a sequence of operations: every read must return the closure of the
+    include graph below the file that is read, whatever was read, loaded or reset before"""
+    dictIO = native.dictio()
+    files = case["files"]
+    tmp = native.scratch_dir("c06h_")
+    try:
+        for d in DIRS:
+            (tmp / d).mkdir(parents=True, exist_ok=True)
+        materialise(case, tmp)
+        idx = {os.path.normpath(f["rel"]): i for i, f in enumerate(files)}
+        for step, op in enumerate(case["history"]):
+            if op[0] == "reset":
+                native.set_counter(-1)
+                continue
+            f = files[op[1]]
+            path = tmp / f["rel"]
+            if op[0] == "load":
+                try:
+                    dictIO.SDict().load(path)      # public API; resets the global placeholder counter
+                except Exception as e:  # noqa: BLE001
+                    return ("raises", f"step {step} {op}: SDict.load raised {type(e).__name__}: {e}")
+                continue
+            comments = op[0] == "read"
+            exp = spec_closure(files, idx, os.path.normpath(f["rel"]), [])
+            exp = eval_refs(exp, exp)
+            try:
+                r = dictIO.DictReader.read(path, comments=comments)
+            except Exception as e:  # noqa: BLE001
+                return ("raises", f"step {step} {op}: read raised {type(e).__name__}: {e}")
+            got = native.strip_placeholders(gen.plain(dict(r)), kinds=("COMMENT", "INCLUDE"))
+            if not c15.assoc_eq(got, exp):
+                return ("history", f"step {step} of {case['history']}: read({f['rel']}) gives {got!r}, closure of the include graph {exp!r}")
+        return None
+    finally:
+        shutil.rmtree(tmp, ignore_errors=True)
+
+
 def oracle(case: dict):
+    if "history" in case:
+        return history_oracle(case)
     dictIO = native.dictio()
     files = case["files"]
     tmp = native.scratch_dir("c06_")
@@ -170,6 +226,11 @@ def oracle(case: dict):
 
 
 def shrink(case):
+    if "history" in case:
+        h = case["history"]
+        for i in range(len(h)):
+            yield {"files": case["files"], "history": h[:i] + h[i + 1:]}
+        return
     files = case["files"]
     for i in range(len(files) - 1, 0, -1):
         c = {"files": [copy.deepcopy(f) for j, f in enumerate(files) if j != i]}
@@ -283,6 +344,27 @@ def run(ctx):
         files[0]["content"] = {"k1": "$k1", "keep": 1}
         files[0]["text"] = "\n".join(f"#include '{inc}'" for inc in files[0]["includes"]) + "\nk1  $k1;\nkeep  1;\n"
         selfref.append({"files": files})
+    # histories: several reads / loads / counter resets in one process over files that share includes and carry
+    # references, expressions and comments (oracle only: the values of the references are computed by the harness)
+    hist = []
+    for i in range(ctx.n(60, 1200)):
+        files = gen_graph(rng, n_files=rng.randrange(2, 6))
+        for j, f in enumerate(files):
+            f["content"][f"ref{j}"] = f"$only{j}"
+            f["content"][f"expr{j}"] = f"$only{j} + 1"
+        h = []
+        for _ in range(rng.randrange(2, 7)):
+            m = rng.random()
+            if m < 0.55:
+                h.append(("read", rng.randrange(len(files))))
+            elif m < 0.65:
+                h.append(("read_nocomments", rng.randrange(len(files))))
+            elif m < 0.85:
+                h.append(("reset",))
+            else:
+                h.append(("load", rng.randrange(len(files))))
+        h.append(("read", 0))
+        hist.append({"files": files, "history": h})
     tmp = native.scratch_dir("c06m_")
     try:
         for d in DIRS:
@@ -304,11 +386,11 @@ def run(ctx):
         ctx.compare("read(includes)", ccases, [normline(m) for m in mout], ilines)
     finally:
         shutil.rmtree(tmp, ignore_errors=True)
-    for c in cases + selfref:
+    for c in cases + selfref + hist:
         r = oracle(c)
         if r:
             ctx.oracle_fail(c, r[0], r[1])
-        feats = graph_features(c["files"])
+        feats = graph_features(c["files"]) | ({"history"} if "history" in c else set())
         ctx.count(("g", repr(c)), bool(feats - {"mixed-syntax"}), "+".join(sorted(feats)) or "plain-tree",
                   sample={"files": [{k: f[k] for k in ("rel", "includes", "content")} for f in c["files"]]} if feats and len(ctx.samples) < 3 else None)
     for need in ("cycle", "shared", "dangling", "equal-names"):
